@@ -251,6 +251,21 @@ func mutateForUpdate(r *rand.Rand, p *corev1.Pod) (*corev1.Pod, string) {
 	}
 }
 
+// junkMeta fills metadata the properties do not mention (they must not influence any decision).
+func junkMeta(r *rand.Rand, p *corev1.Pod) {
+	p.Generation = int64(1 + r.Intn(5))
+	p.ResourceVersion = fmt.Sprint(100 + r.Intn(100))
+	p.UID = types.UID(fmt.Sprintf("uid-%d", r.Intn(1000)))
+	if p.Labels == nil {
+		p.Labels = map[string]string{}
+	}
+	p.Labels["pod-security.kubernetes.io/enforce"] = "privileged" // pod labels are not namespace labels
+	p.Finalizers = []string{"example.com/f"}
+	p.Spec.NodeName = "node-1"
+	p.Spec.ServiceAccountName = "default"
+	p.Spec.Priority = func() *int32 { x := int32(2000000000); return &x }()
+}
+
 func podScenario(r *rand.Rand, marker bool) scenario {
 	s := scenario{Marker: marker, Cfg: admCfg(r, false)}
 	ls := admLabels(r, 40)
@@ -300,10 +315,25 @@ func podScenario(r *rand.Rand, marker bool) scenario {
 	}
 	s.Tags = append(s.Tags, "req:pod", "op:"+s.Req.Op, "object:"+kind)
 	s.Req.Old = adm.ObjSpec{Kind: "nil"}
+	if r.Intn(100) < 50 {
+		junkMeta(r, p)
+	}
 	if s.Req.Op == "UPDATE" {
 		oldKind := "pod"
 		if kind == "pod" {
 			old, why := mutateForUpdate(r, p)
+			// fields outside the significance rule: equal / different generation, a different (maybe exempt) runtime class on the old pod
+			switch r.Intn(4) {
+			case 0:
+				old.Generation = p.Generation
+			case 1:
+				old.Generation = p.Generation + 1
+			}
+			if r.Intn(100) < 20 {
+				rc := pick(r, rcPool)
+				old.Spec.RuntimeClassName = &rc
+				why += "+old-runtimeclass"
+			}
 			s.Req.Old = adm.ObjSpec{Kind: "pod", Pod: old}
 			s.Tags = append(s.Tags, "update:"+why)
 		} else {
@@ -364,6 +394,30 @@ func controllerScenario(r *rand.Rand, marker bool) scenario {
 		kind = "unknown-resource"
 	}
 	s.Req.Old = adm.ObjSpec{Kind: "nil"}
+	if r.Intn(100) < 60 {
+		s.Req.Object.Generation = int64(1 + r.Intn(4))
+	}
+	if s.Req.Op == "UPDATE" && s.Req.Object.Kind == "controller" {
+		// an UPDATE carries the old controller object: unchanged template, changed template, or another generation
+		old := s.Req.Object
+		old.Pod = p.DeepCopy()
+		updKind := "unchanged-template"
+		switch r.Intn(4) {
+		case 0:
+			old.Pod.Spec.HostNetwork = !old.Pod.Spec.HostNetwork
+			updKind = "changed-template"
+		case 1:
+			old.Generation = s.Req.Object.Generation + 1
+			updKind = "unchanged-template+generation"
+		case 2:
+			if len(old.Pod.Spec.Containers) > 0 {
+				old.Pod.Spec.Containers[0].Image = "old-image"
+				updKind = "changed-image"
+			}
+		}
+		s.Req.Old = old
+		s.Tags = append(s.Tags, "ctl-update:"+updKind)
+	}
 	s.Tags = append(s.Tags, "req:controller", "op:"+s.Req.Op, "object:"+kind)
 	return s
 }
